@@ -42,7 +42,7 @@ ASSUMPTIONS = [
     'a seed of type numpy.random.Generator is in the domain only where documented or where chi itself passes one',
     'side effects on the global generators are not judged (the property speaks about results only)']
 REQUIRED = ['entry:' + e for e in ENTRIES] + ['indep', 'gen', 'other:trunc', 'step:npseed', 'step:pyseed',
-                                               'same_family_outputs', 'times:repeated', 'seed:numpy_int']
+                                               'same_family_outputs', 'times:repeated', 'seed:numpy_int', 'pop:hetero_small_calls']
 SEEDS = st.integers(0, 2 ** 31 - 2)
 GEN_ENTRIES = ('em', 'pop', 'pred', 'poppred', 'prior', 'post')
 DF_ENTRIES = ('prior', 'post', 'pam')
@@ -145,6 +145,11 @@ def _target(draw, entry):
     if entry == 'pop':
         n_ids = draw(st.integers(1, 4))
         pop = popgen.draw_pop(draw, n_ids, max_parts=3, max_dim=2, p_cov=0.3, p_red=0)
+        if gen.chance(draw, 0.3):
+            # a heterogeneous part over several individuals (no covariates)
+            n_ids = draw(st.integers(2, 4))
+            pop = dict(kind='comp', parts=[dict(kind='hetero', n_dim=draw(st.integers(1, 2))),
+                                           popgen.draw_elem(draw, popgen.ELEM_KINDS, max_dim=2)])
         cov = popgen.draw_cov_matrix(draw, 1, ref.pop_n_cov(pop))
         pop, theta = _draw_theta(draw, pop, n_ids, cov, False)
         return dict(pop=pop, n_ids=n_ids, theta=theta, cov=None if cov is None else cov[0], ns=_ns(draw))
@@ -369,6 +374,13 @@ def _build(spec):
 
         def noise(n, seed):
             return np.asarray(call(seed, n), dtype=float)[:, keep]
+        # heterogeneous part: column of its first dimension (rows of different individuals carry different values)
+        d = 0
+        for lf in popgen.leaves(pop):
+            if lf['kind'] == 'hetero' and n_ids >= 2 and not popgen.has(pop, 'cov'):
+                meta['hetero_col'] = (d, n_ids)
+                break
+            d += lf['n_dim']
         return call, (noise if keep else None), meta
 
     if entry in ('pred', 'prior', 'post', 'pam'):
@@ -611,6 +623,9 @@ def classify(spec):
         labs.append('ns=None')
     if spec.get('seed_form', 'int') != 'int':
         labs.append('seed:numpy_int')
+    if spec['entry'] == 'pop' and spec['target']['n_ids'] >= 2 and popgen.has(spec['target']['pop'], 'hetero') and \
+            not popgen.has(spec['target']['pop'], 'cov'):
+        labs.append('pop:hetero_small_calls')
     tm = spec['target'].get('times')
     if spec['entry'] in ('pred', 'poppred', 'prior', 'post', 'pam') and tm and len(set(tm)) < len(tm):
         labs.append('times:repeated')
@@ -727,6 +742,34 @@ def check(case):
                             if sa != sb and same(canon(dcall(sa)), canon(dcall(sb))):
                                 case.fail('identical', 'seeds %d and %d (and %d, %d) give identical results' % (
                                     seeds[labs[i]], seeds[labs[j]], sa, sb))
+
+    # ---- small calls: the samples of ONE call are independent of each other also when there are few of them ----
+    if meta.get('hetero_col') is not None:
+        col, K = meta['hetero_col']
+
+        def pair_counts(n_calls, seed0):
+            eq = 0
+            for j in range(n_calls):
+                x = np.asarray(call(stats.derive_seed(seed0, 'small', j), 2), dtype=float)
+                eq += int(x[0, col] == x[1, col])
+            return eq
+
+        def tests_small(data):
+            n_calls, eq = data
+            from scipy import stats as sps
+            pv = float(sps.binomtest(eq, n_calls, 1.0 / K).pvalue)
+            return {('small_calls:' + entry,): (pv, 'binomial', 'two samples of one call (n_samples=2) come from the same '
+                                                'individual of the heterogeneous part in %d of %d calls; %.1f expected '
+                                                '(independent uniform choices among %d individuals)' % (
+                                                    eq, n_calls, n_calls / float(K), K))}
+        res_s = None
+        with case.clause('small_calls_run:' + entry):
+            res_s = stats.two_stage(lambda n, sd: (n, pair_counts(n, sd)), tests_small, s['stat_seed'], 150)
+        if res_s is not None:
+            with case.clause('small_calls:' + entry):
+                fs = res_s.for_prefix('small_calls:' + entry)
+                if fs:
+                    case.fail(fs[0].stat, fs[0].text())
 
     # ---- replicate measurements: the same time requested twice carries two noise terms --------
     tm = s['target'].get('times')
